@@ -275,7 +275,8 @@ def r2_codec_plumb(ck, F):
     rec = F.body(A("ibc_recursive"))
     for b, site in loads:
         a = b.arg_exprs(site)[1]
-        ok = (is_call(a, A("reader_codec")) and is_self_field(a.strip().a[0], "reader")) or is_self_field(a, "compression_type")
+        mf = reader_meta_field(F, a)
+        ok = (mf is not None and mf[0] == "compression_type" and is_self_field(mf[1], "reader")) or is_self_field(a, "compression_type")
         if b.path == rec.path:
             ok = is_arg(a, "compression_type")
         ck.ob(R, f"load-codec/{b.path}", ok, f"Block::new(.., codec = {a.show()})", b, site)
@@ -284,16 +285,24 @@ def r2_codec_plumb(ck, F):
         for site, c, t in calls(b, A("ibc_recursive")):
             a = b.arg_exprs(site)[1]
             ck.ob(R, f"recursive-codec/{b.path}", is_self_field(a, "compression_type") or is_arg(a, "compression_type"), f"recursive(.., codec = {a.show()})", b, site)
-    g = F.body(A("reader_codec"))
-    ck.ob(R, "reader-codec-getter", is_self_field(g.expr_at_return(), "metadata", "compression_type"), f"Reader::compression_type returns {g.expr_at_return().show()}", g)
-    for b, s, rv in aggregates(F, A("ibc_struct")):
-        e = agg_field_expr(b, s, rv, "compression_type")
-        ck.ob(R, "index-cursor-codec-init", is_arg(e, "compression_type"), f"IndexBlockCursor.compression_type := {e.show()}", b, s)
+    if F.has_body(A("reader_codec")):
+        g = F.body(A("reader_codec"))
+        ck.ob(R, "reader-codec-getter", is_self_field(g.expr_at_return(), "metadata", "compression_type"), f"Reader::compression_type returns {g.expr_at_return().show()}", g)
+    # the index cursor is configured in ReaderCursor::new (IndexBlockCursor::new is read as part of it) from the
+    # trailer of the reader it wraps: each field from the trailer field of the same meaning, through the accessor
+    # or straight from reader.metadata
     rcn = F.body(A("rc_prefix") + "new")
-    for site, c, t in calls(rcn, A("ibc_prefix") + "new"):
-        a = rcn.arg_exprs(site)
-        ck.ob(R, "cursor-new-plumbing", is_call(a[0], A("reader_offset")) and is_call(a[1], A("reader_codec")) and is_call(a[2], A("reader_levels")),
-              f"IndexBlockCursor::new({', '.join(x.show() for x in a)})", rcn, site)
+    ibn = A("ibc_prefix") + "new"
+    ags = [(b, s, rv) for b, s, rv in aggregates(F, A("ibc_struct")) if b.path != ibn]
+    ck.ob(R, "index-cursor-built-once", len(ags) == 1 and ags[0][0].path == rcn.path, f"IndexBlockCursor is built in ReaderCursor::new only ({[b.path for b, s, rv in ags]})", rcn)
+    for b, s, rv in ags:
+        got = {}
+        for fld in ("base_block_offset", "compression_type", "index_levels"):
+            mf = reader_meta_field(F, agg_field_expr(b, s, rv, fld)) if fld in rv["fields"] else None
+            got[fld] = (mf[0], mf[1].show()) if mf else None
+        want = {"base_block_offset": ("index_block_offset", "reader"), "compression_type": ("compression_type", "reader"), "index_levels": ("index_levels", "reader")}
+        ck.ob(R, "index-cursor-codec-init", got["compression_type"] == want["compression_type"], f"IndexBlockCursor.compression_type := {got['compression_type']} of the reader's trailer", b, s)
+        ck.ob(R, "cursor-new-plumbing", got == want, f"IndexBlockCursor {{ {', '.join(k + ': ' + str(v) for k, v in got.items())} }}", b, s)
     st = field_stores(F, A("ibc_struct"), "compression_type") + field_stores(F, A("block_struct"), "compression_type") + field_stores(F, A("meta_struct"), "compression_type")
     ck.exact(R, "stores overwriting a decoded codec field", len(st), 0, F.config)
     bn = F.body(A("block_new"))
@@ -646,8 +655,9 @@ def r6_depth(ck, F):
                 if a and is_self_field(a[0], "index_block_writers"):
                     bad.append(b.loc(s))
     ck.ob(R, "vector-length-fixed", not bad, "the vector of index writers is never resized after construction" + (f": {bad}" if bad else ""), config=F.config)
-    g = F.body(A("reader_levels"))
-    ck.ob(R, "reader-levels-getter", is_self_field(g.expr_at_return(), "metadata", "index_levels"), f"Reader::index_levels returns {g.expr_at_return().show()}", g)
+    if F.has_body(A("reader_levels")):
+        g = F.body(A("reader_levels"))
+        ck.ob(R, "reader-levels-getter", is_self_field(g.expr_at_return(), "metadata", "index_levels"), f"Reader::index_levels returns {g.expr_at_return().show()}", g)
     ini = F.body(A("ibc_initial"))
     # the loop that loads the levels runs index_levels + 1 times: `for _ in 0..index_levels as usize + 1`,
     # `0..=index_levels`, or `while v.len() < index_levels + 1 { ..; v.push(..) }` (the forms C16-R3 recognises)
